@@ -349,14 +349,18 @@ repair_control = FunctionContract(
     ],
     modifies=['MOLATTR', 'FOUNDATTR', 'EDGES', 'match', 'missing'],
     loops={
+        # termination: a pass that places something shortens the list, a pass that places nothing is the last one
         'L1': LoopSpec(inv=CTRL_INV + ["added or forall(lambda p: implies(0 <= p and p < len(missing), stuck(missing[p])))"],
-                       modifies=['MOLATTR', 'FOUNDATTR', 'EDGES', 'match', 'missing']),
+                       modifies=['MOLATTR', 'FOUNDATTR', 'EDGES', 'match', 'missing'], decreases="2 * len(missing) + (1 if added else 0)"),
         'L1.1': LoopSpec(live=True, inv=CTRL_INV + [
             "0 <= _i",
+            "len(missing) <= len(g_m) and implies(added, len(missing) < len(g_m))",
             # a pass that placed nothing has not touched the list, and every atom it looked at is stuck
             "implies(not added, len(missing) == len(g_m) and forall(lambda p: implies(0 <= p and p < len(g_m), missing[p] == g_m[p])) and "
             "   forall(lambda p: implies(0 <= p and p < _i and p < len(missing), stuck(missing[p]))))"],
-            modifies=['MOLATTR', 'FOUNDATTR', 'EDGES', 'match', 'missing'], ghost_init="g_m = list(missing)"),
+            modifies=['MOLATTR', 'FOUNDATTR', 'EDGES', 'match', 'missing'], ghost_init="g_m = list(missing)",
+            # ... and a pass ends: the index grows, the list does not
+            decreases="len(missing) - _i"),
         'L1.1.1': LoopSpec(inv=[], modifies=[]),
         'L1.1.2': LoopSpec(
             inv=["neighbours >= 0 and implies(exists(lambda j: 0 <= j and j < _i and nbrs(ref_idx)[j] in g_match), neighbours > 0)",
